@@ -253,8 +253,8 @@ func execIngress(f *fe.Fixture, o *origin, c IngressCase, rng *rand.Rand, size i
 				end = len(transport)
 			}
 			if c.Defect == "abort" && sent >= len(transport)/2 && !first {
-				cancel() // the client goes away part-way
-				_, e = w.CloseAndRecv()
+				cancel() // the client goes away part-way (no half-close, see below)
+				_ = w.RecvMsg(new(bytestream.WriteResponse))
 				return "reject", "client aborted", claimH, claimS, nil
 			}
 			rq := &bytestream.WriteRequest{Data: transport[sent:end], WriteOffset: int64(sent), FinishWrite: end == len(transport) && c.Defect != "abort"}
@@ -269,7 +269,10 @@ func execIngress(f *fe.Fixture, o *origin, c IngressCase, rng *rand.Rand, size i
 		}
 		if c.Defect == "abort" {
 			cancel()
-			_, _ = w.CloseAndRecv()
+			// no half-close: CloseAndRecv would send END_STREAM, which can overtake the reset - and a stream that
+			// delivered all the bytes (a blob of one byte travels in the first message) and then ends cleanly is
+			// a complete upload, which the server is right to store
+			_ = w.RecvMsg(new(bytestream.WriteResponse))
 			return "reject", "client aborted", claimH, claimS, nil
 		}
 		resp, e := w.CloseAndRecv()
